@@ -526,7 +526,7 @@ def gen_group(rng, nprobes):
     # the history is generated against the first geometric probe's scale; the others must admit it as well
     hist = []
     n = rng.choice([1, 1, 2, 2, 3, 4, 5, 6, 8, 12])
-    lead = next(((p, b) for p, b in probes if p["dims"] is not None), (probes[0], F(1)))
+    lead = next(((p, b) for p, b in probes if p["dims"] is not None), (probes[0][0], F(1)))
     for _ in range(n):
         h = gen_history_op(rng, lead[0], lead[1])
         if h is not None:
@@ -797,7 +797,10 @@ def to_coq(case, obs):
         parts.append(f"trace_ok None {hs} {ob}")
         # ... and of the probe itself, alone and after the history
         if p.get("cand") is not None:
-            for before, after in ((None, obs["eps_own"]), (obs["eps_hist"], obs["eps_after"])):
+            for side, before, after in (("alone", None, obs["eps_own"]), ("after", obs["eps_hist"], obs["eps_after"])):
+                o = unwj(obs[side]["obs"])
+                if isinstance(o, dict) and "raised" in o and after == before:
+                    continue        # the constructor raised before it reached the guard (ill-formed document)
                 if (before is None or all(math.isfinite(v) for v in before)) and \
                         (after is None or all(math.isfinite(v) for v in after)):
                     parts.append(f"trace_ok {gepsopt(before)} {glist([gcand(p['cand'])])} {glist([gepsopt(after)])}")
